@@ -206,6 +206,85 @@ def effective_seed(case):
     return own if own is not None else case.get("experiment_seed")
 
 
+PRE_SIM = [{"context": 10 * (i + 1), "actions": ["a", "b", "c"], "rewards": [0.25 * i, 0.5, 0.75]} for i in range(3)]
+PRE_LOG = [{"context": 10 * (i + 1), "actions": ["a", "b", "c"], "action": "b", "reward": 0.5 + i, "probability": 0.5} for i in range(3)]
+
+
+def run_pre(op):
+    """an earlier operation in the same process that leaves CobaContext.learning_info non-empty (what the property's "exactly what
+    the environment provides" must be robust against -- Experiment's ProcessTasks goes on to the next task after a failed one):
+      {"kind":"crash","where":"learn"|"predict"|"score","at":k,"info":[[key,valspec],…]}  a SequentialCB evaluation whose learner writes
+          learning_info and then raises in its (k+1)-th learn/predict/score call -- the evaluation is aborted mid-pass;
+      {"kind":"rejection","info":[…]}  a complete RejectionCB evaluation whose learner writes learning_info in learn (RejectionCB clears the
+          dict at the top of each pass only, so the last pass's info stays behind).
+    Returns a short description of what happened (exception name or row count)."""
+    from coba.context import CobaContext
+    from coba.evaluators.sequential import SequentialCB, RejectionCB
+    info = {k: mk(v) for k, v in op["info"]}
+    where, at = op.get("where"), op.get("at", 0)
+
+    class Env:
+        def __init__(self, rows):
+            self._rows = rows
+        params = {}
+        def read(self):
+            return [dict(r) for r in self._rows]
+
+    class Noisy:
+        def __init__(self):
+            self.n = {"predict": 0, "learn": 0, "score": 0}
+        def _hit(self, m):
+            self.n[m] += 1
+            CobaContext.learning_info.update(info)
+            if where == m and self.n[m] > at:
+                raise RuntimeError("pre-operation learner fails in %s call #%d" % (m, self.n[m]))
+        def predict(self, context, actions):
+            self._hit("predict")
+            return actions[0], 0.5
+        def score(self, context, actions, action):
+            self._hit("score")
+            return 1.0
+        def learn(self, context, action, reward, probability):
+            self._hit("learn")
+
+    try:
+        if op["kind"] == "rejection":
+            return "rows=%d" % len(list(RejectionCB(record=["reward"], cinit=1, seed=1).evaluate(Env(PRE_LOG), Noisy())))
+        if where == "score":
+            ev = SequentialCB(record=["reward"], learn="off", eval="ips")
+            return "rows=%d" % len(list(ev.evaluate(Env(PRE_LOG), Noisy())))
+        return "rows=%d" % len(list(SequentialCB().evaluate(Env(PRE_SIM), Noisy())))
+    except RuntimeError as e:
+        return "RuntimeError"
+
+
+def episode_pre(case, k):
+    return (case.get("pre") if k == 0 else case["then"][k - 1].get("pre")) or []
+
+
+def monitor_foreign(case, impl):
+    """(B) "additional interaction fields are carried into the row unchanged" and nothing else is: every key of a recorded row is a
+    recorded variable, a timing column, a field of this environment's interactions, or learning_info written by THIS evaluation's learner"""
+    if not impl["rows"]:
+        return []
+    allowed = set(RESERVED) | {k for p_ in case["env"]["inters"] for k, _ in p_}
+    if case["learner"].get("info"):
+        allowed |= {k for e in case["learner"]["script"] for k, _ in list(e.get("ip", [])) + list(e.get("il", []))}
+    for i, row in enumerate(impl["rows"]):
+        foreign = sorted(k for k, _ in row if k not in allowed)
+        if foreign:
+            stale = all(k.startswith("stale_") for k in foreign)
+            return [F("B", "row %d holds %s=%s: neither a recorded variable nor a field of this environment nor learning_info written by this evaluation's "
+                           "learner%s" % (i, foreign, [v for k, v in row if k in foreign][:3],
+                                          " (left in CobaContext.learning_info by an earlier operation in the same process: %s)" % json.dumps(episode_pre_of(case)) if stale else ""),
+                      "rows:foreign-key" + (":stale-learning_info" if stale else ""))]
+    return []
+
+
+def episode_pre_of(case):
+    return case.get("pre") or []
+
+
 def run_history(case):
     """run the real SequentialCB exactly as Experiment's ProcessTasks does, list(SafeEvaluator(val).evaluate(env, lrn)), once per
     episode.  Episodes without a learner of their own reuse the case's learner OBJECT (the recording learner itself, or one
@@ -238,9 +317,13 @@ def run_history(case):
                 CobaContext.store.pop("experiment_seed", None)
             L = episode_learner(case, k)
             lrn, given = shared if (k == 0 or not case["then"][k - 1].get("learner")) else build(L)
-            CobaContext.learning_info.clear()
+            if k == 0:
+                CobaContext.learning_info.clear()        # once per history; between evaluations the evaluator itself has to cope
+            pre_notes = [run_pre(op) for op in episode_pre(case, k)]
             n0 = len(lrn.calls)
             out = {"exc": None, "rows": None, "s0": [lrn.n_pred, lrn.n_score]}
+            if pre_notes:
+                out["pre"] = pre_notes
             try:
                 if case.get("reuse_evaluator"):
                     if shared_ev is None:
@@ -253,6 +336,11 @@ def run_history(case):
                 out["rows"] = [canon_row(r) for r in rows]
             except Exception as e:       # noqa: any exception is an observable here
                 out["exc"] = type(e).__name__
+                out["msg"] = str(e)[:300]
+            except BaseException as e:   # noqa: CobaExit (missing optional package) derives from BaseException
+                if type(e).__name__ != "CobaExit":
+                    raise
+                out["exc"] = "CobaExit"
                 out["msg"] = str(e)[:300]
             out["calls"] = [dict(c) for c in lrn.calls[n0:]]
             outs.append(out)
@@ -590,6 +678,129 @@ def monitor(case, impl):
                        % (rec, mode, row_fails[0]["what"]), "rows:batched-plain-list-cells")]
     fails += row_fails
     return fails, tags
+
+
+XMODES = ("dr", "dm")
+
+
+def is_xcfg(cfg):
+    """a mode that needs the optional package vowpalwabbit (outside the property's quantifier; the guard is modelled)"""
+    return cfg["learn"] in XMODES or cfg["eval"] in XMODES
+
+
+def vw_installed():
+    import importlib.util
+    try:
+        return importlib.util.find_spec("vowpalwabbit") is not None
+    except Exception:
+        return False
+
+
+def hetero_reserved(env):
+    """later interactions whose reserved keys (other than 'probability') differ from the first interaction's: outside the
+    property's quantifier -- only (A) applies (model: missingOf / firstBad)"""
+    if not env["inters"]:
+        return False
+    ks = [sorted(k for k, _ in p_ if k in RESERVED and k != "probability") for p_ in env["inters"]]
+    return any(k != ks[0] for k in ks)
+
+
+def monitor_x(case, impl):
+    """(B) for a dr/dm mode where vowpalwabbit is absent: the statement's last clause -- an evaluation that cannot be carried out is
+    refused with an error, never mis-evaluated: no learner call, no row"""
+    cfg = case["cfg"]
+    fails, tags = [], ["xmode:learn=%s,eval=%s" % (cfg["learn"], cfg["eval"])]
+    if not case["env"]["inters"]:
+        tags.append("empty-env")
+        if impl["exc"] or impl["calls"] or impl["rows"]:
+            fails.append(F("B", "empty environment: expected no calls and no rows, got exc=%s calls=%d rows=%s" % (impl["exc"], len(impl["calls"]), impl["rows"]), "empty-env-output"))
+        return fails, tags
+    if vw_installed():
+        tags.append("vw-installed")
+        return fails, tags
+    if impl["exc"] is None or impl["calls"] or impl["rows"]:
+        fails.append(F("B", "SequentialCB(learn=%r,eval=%r) without vowpalwabbit: the mode cannot be evaluated, but exc=%s, learner calls=%d, rows=%s -- "
+                       "the learner was fed / rows were recorded from something other than the documented reward estimate"
+                       % (cfg["learn"], cfg["eval"], impl["exc"], len(impl["calls"]), impl["rows"] if impl["rows"] is None else len(impl["rows"])),
+                       "xmode:mis-evaluated-without-package"))
+    return fails, tags
+
+
+def compare_AX(case, impl, ans):
+    """implementation vs `evaluateX` (all accepted modes; vw = whether vowpalwabbit is installed)"""
+    import re
+    m = ans["modelX"]
+    cfg = case["cfg"]
+    mode = "learn=%s,eval=%s" % (cfg["learn"], cfg["eval"])
+    if m["kind"] == "notModelled":
+        return []
+    if m["kind"] == "error" and m["err"] == "missing":
+        got = None
+        if impl["exc"] == "CobaException" and "requires" in impl.get("msg", ""):
+            got = sorted(re.findall(r"'(\w+)'", impl["msg"].split("requires", 1)[1]))
+        if got is None or got != sorted(m["missing"]) or impl["calls"]:
+            return [F("A", "modelX: validation rejects %s with missing keys %s; implementation: exc=%s %s calls=%d"
+                      % (mode, sorted(m["missing"]), impl["exc"], impl.get("msg", "")[:100], len(impl["calls"])), "A:x-validate")]
+        return []
+    if m["kind"] == "error" and m["err"] == "package":
+        ok = impl["exc"] == "CobaExit" and ("%s OpeRewards" % m["type"]) in impl.get("msg", "") and not impl["calls"]
+        if not ok:
+            return [F("A", "modelX: OpeRewards(%r, target=%r) refuses for want of vowpalwabbit (%s); implementation: exc=%s %s calls=%d"
+                      % (m["type"], m["target"], mode, impl["exc"], impl.get("msg", "")[:100], len(impl["calls"])), "A:x-package")]
+        return []
+    if m["kind"] == "ok" and not case["env"]["inters"]:
+        if impl["exc"] or impl["rows"] or impl["calls"]:
+            return [F("A", "modelX: empty environment gives nothing; implementation exc=%s rows=%s" % (impl["exc"], impl["rows"]), "A:x-empty")]
+    return []
+
+
+def compare_hetero(case, impl, ans):
+    """(A) on an environment whose later interactions lack reserved keys the first one has: the model says which interaction is the
+    first to lack a key the code subscripts (firstBad) and which keys; the code must raise KeyError for one of them, after having
+    fed the learner no more than the interactions before it"""
+    fb = ans.get("firstBad")
+    m = ans["model"]
+    if fb is None or (m["kind"] == "error" and m.get("err") == "missing"):
+        return None          # the model evaluates / validation rejects: the ordinary comparison applies
+    if not fb["shapeOk"]:
+        return []
+    fails = []
+    key = impl.get("msg", "").strip("'\"")
+    if impl["exc"] != "KeyError" or key not in fb["keys"]:
+        fails.append(F("A", "interaction %d lacks %s which the code subscripts (flags of the first interaction): model KeyError, implementation exc=%s %s"
+                       % (fb["at"], fb["keys"], impl["exc"], impl.get("msg", "")[:80]), "A:hetero-keyerror"))
+        return fails
+    if m["kind"] != "error" or m.get("err") != "KeyError" or m.get("key") not in fb["keys"]:
+        fails.append(F("C", "firstBad says interaction %d lacks %s but evaluate gives %s" % (fb["at"], fb["keys"], json.dumps(m)[:120]), "C:hetero-firstBad"))
+    pre = fb["prefix"]
+    if pre["kind"] == "ok" and case["learner"]["fmt"] not in ("pmf", "pmfK"):      # (PMF draws: the prefix is evaluated with the plain scripted learner)
+        exp = [model_call(c) for c in pre["calls"]]
+        got = [strip_call(c) for c in impl["calls"]]
+        if len(got) > len(exp) or any(set(g) != set(e) or not all(ceq(g[k], e[k], tol=(k == "r")) for k in e) for g, e in zip(got, exp)):
+            fails.append(F("A", "before the KeyError at interaction %d the learner saw %s, the model's evaluation of the %d interactions before it gives %s"
+                           % (fb["at"], json.dumps(got)[:160], fb["at"], json.dumps(exp)[:160]), "A:hetero-prefix"))
+    return fails
+
+
+def compare_record_keys(case, impl, ans):
+    """(A) record-field set (theorem record_fields_per_mode): the reserved-name cells of every implementation row are `recordKeys`"""
+    rk = ans.get("recordKeys")
+    if rk is None or impl["rows"] is None:
+        return []
+    L = case["learner"]
+    if L["fmt"] in ("pmf", "pmfK"):
+        has_p = True
+    else:
+        has_p = L["fmt"] in ("AP", "APK", "dAP", "dAPK") and all(e.get("p") is not None for e in L["script"])
+    want = set(rk[1] if has_p else rk[0])
+    if not has_p:
+        want.discard("probability")       # the batched path writes a `probability: None` cell = absent
+    for i, row in enumerate(impl["rows"]):
+        got = {k for k, v in row if k in RESERVED and not (k == "probability" and v is None)}
+        if got != want:
+            return [F("A", "row %d holds the reserved cells %s, recordKeys (record=%r, learn=%s, eval=%s) says %s"
+                      % (i, sorted(got), case["cfg"]["record"], case["cfg"]["learn"], case["cfg"]["eval"], sorted(want)), "A:record-keys")]
+    return []
 
 
 def strip_call(c):
@@ -953,6 +1164,12 @@ def gen_episode(rng, boundary=False, cfg_fixed=None):
         record = [rng.choice(RECORD_ALL)]
     else:
         record = rng.shuffle(rng.subset(RECORD_ALL, 0.45))
+    xmode = cfg_fixed is None and rng.chance(0.07)
+    if xmode:
+        # a mode that needs vowpalwabbit ('dr'/'dm'): accepted by the constructor; without the package the evaluation must be refused
+        # (CobaException from validation when a required key is missing, else CobaExit from OpeRewards) before the learner is used
+        learn = rng.choice(["dr", "dm", "dr", "dm", "on", "off", "ips", None])
+        ev = rng.choice(["dr", "dm", "on", "ips", None]) if learn in XMODES and rng.chance(0.6) else rng.choice(["dr", "dm"])
     cfg = {"learn": learn, "eval": ev, "record": record}
     if cfg_fixed is not None:
         cfg, learn, ev = cfg_fixed, cfg_fixed["learn"], cfg_fixed["eval"]
@@ -963,7 +1180,7 @@ def gen_episode(rng, boundary=False, cfg_fixed=None):
     has_ctx_key = not (cstyle == "none" and rng.chance(0.5))
     # which fields the environment carries
     wants_sim = learn == "on" or ev == "on"
-    wants_log = learn in ("off", "ips") or ev == "ips"
+    wants_log = learn in ("off", "ips", "dr", "dm") or ev in ("ips", "dr", "dm")
     r = rng.below(10)
     if r < 5:
         has_actions, has_rewards, has_logged = True, wants_sim or rng.chance(0.3), wants_log or rng.chance(0.3)
@@ -1037,8 +1254,25 @@ def gen_episode(rng, boundary=False, cfg_fixed=None):
             inters = [[kv for kv in p_ if kv[0] != "probability" or (q > 0 and (q == 1 or rng.chance(0.6)))] for q, p_ in enumerate(inters)]
         else:   # the other direction: the first has one, the second (and maybe others) has none
             inters = [[kv for kv in p_ if kv[0] != "probability" or q == 0 or (q > 1 and rng.chance(0.6))] for q, p_ in enumerate(inters)]
+    het = False
+    if cfg_fixed is None and not xmode and batch is None and len(inters) > 1 and rng.chance(0.08):
+        # heterogeneous reserved keys (outside the property's quantifier, (A) only): ONE later interaction loses one or two reserved keys
+        # the first interaction has (the code subscripts them when the first has them: KeyError, or not at all), and later interactions
+        # may carry reserved keys the first lacks (ignored: every has_* flag is read off the first interaction)
+        het = True
+        q = rng.randint(1, len(inters) - 1)
+        have = [k for k, _ in inters[0] if k in RESERVED and k != "probability"]
+        if have and rng.chance(0.75):
+            drop = rng.sample(have, min(len(have), rng.choice([1, 1, 1, 2])))
+            inters = [[kv for kv in p_ if not (i_ == q and kv[0] in drop)] for i_, p_ in enumerate(inters)]
+        lack = [k for k in ("context", "action", "reward", "actions") if k not in idict(inters[0])]
+        if lack and rng.chance(0.6):
+            k = rng.choice(lack)
+            val = {"context": lambda: gen_context(rng, "scalar"), "action": lambda: rng.randint(0, 3), "reward": lambda: gen_num(rng),
+                   "actions": lambda: {"l": [0, 1, 2]}}[k]
+            inters = [p_ + ([[k, val()]] if (i_ > 0 and rng.chance(0.6)) else []) for i_, p_ in enumerate(inters)]
     env = {"batch": batch, "gen": rng.chance(0.5), "inters": inters}
-    if rng.chance(0.4):
+    if rng.chance(0.4) and not het:
         env["ctor"] = True        # built through LoggedInteraction(...) / SimulatedInteraction(...) where the keys allow
     return cfg, env, (astyle if has_actions else "int")
 
@@ -1097,7 +1331,35 @@ def gen_learner(rng, cfgs, envs, allow_pmf=True, has_score=None, force_pmf=False
     return L
 
 
+STALE_INFOS = [[["stale_explored", {"b": 1}], ["stale_step", 3]], [["stale_loss", {"f": [1, 2]}]], [["stale_tag", "xy"]], [["stale_vec", {"l": [1, 2, 3]}]]]
+
+
+def gen_pre(rng):
+    """1-2 earlier operations in the same process that leave CobaContext.learning_info non-empty"""
+    ops = []
+    for _ in range(rng.choice([1, 1, 2])):
+        if rng.chance(0.3):
+            ops.append({"kind": "rejection", "info": rng.choice(STALE_INFOS)})
+        else:
+            ops.append({"kind": "crash", "where": rng.choice(["learn", "learn", "predict", "score"]), "at": rng.choice([0, 1, 1, 2]), "info": rng.choice(STALE_INFOS)})
+    return ops
+
+
 def gen_case(rng, tier="quick", boundary=False):
+    """`gen_case0` + (12%) earlier operations in the same process (an aborted SequentialCB evaluation whose learner wrote
+    learning_info, or a RejectionCB evaluation) before the first and/or a later evaluation of the case"""
+    case = gen_case0(rng, tier, boundary)
+    if rng.chance(0.2 if boundary else 0.12):
+        then = case.get("then") or []
+        if then and rng.chance(0.4):
+            q = rng.below(len(then))
+            case["then"] = [dict(t, pre=gen_pre(rng)) if i_ == q else t for i_, t in enumerate(then)]
+        else:
+            case["pre"] = gen_pre(rng)
+    return case
+
+
+def gen_case0(rng, tier="quick", boundary=False):
     """a case = one evaluation, or a short history of 2-3 evaluations: (25%) the SAME learner object -- plain or already wrapped in
     a SafeLearner -- over environments that differ in batching / context kind / action set, each with a fresh evaluator; or (12%)
     the SAME SequentialCB object applied to DIFFERENT learners (with/without score, other formats, batch-aware or not) over the
@@ -1156,6 +1418,77 @@ def gen_case(rng, tier="quick", boundary=False):
         case["then"] = then
         L["prewrap"] = rng.chance(0.5)
     return case
+
+
+# ------------------------------------------------------------------ translator: tables read off the source with `ast`
+DEFAULT_TABLES = {
+    "implicit_exclude": ["context", "actions", "rewards", "action", "reward", "probability", "eval_rewards", "learn_rewards"],
+    "req_pred": ["actions"], "req_off": ["action", "reward"], "req_rwds": ["rewards"],
+    "learn_types": [["ips", "IPS"], ["dr", "DR"], ["dm", "DM"]], "eval_types": [["ips", "IPS"], ["dr", "DR"], ["dm", "DM"]],
+    "ope_targets": ["learn_rewards", "eval_rewards"], "learn_target": "learn_rewards", "eval_target_own": "eval_rewards",
+    "eval_target_shared": "learn_rewards", "vw_types": ["DM", "DR"], "learn_modes": ["on", "off", "ips", "dr", "dm"],
+    "eval_modes": ["on", "ips", "dr", "dm"], "default_record": ["reward", "action", "probability"]}
+
+
+def extract_tables(repo):
+    """tables, constants, dispatch chains and key lists of SequentialCB / OpeRewards, read with `ast` from the source under test"""
+    import ast
+    seq = ast.parse(open(os.path.join(repo, "coba", "evaluators", "sequential.py"), encoding="utf-8").read())
+    flt = ast.parse(open(os.path.join(repo, "coba", "environments", "filters.py"), encoding="utf-8").read())
+    cls = next(n for n in seq.body if isinstance(n, ast.ClassDef) and n.name == "SequentialCB")
+    fns = {n.name: n for n in cls.body if isinstance(n, ast.FunctionDef)}
+    t = {}
+    # _IMPLICIT_EXCLUDE = {...}
+    asg = next(n for n in cls.body if isinstance(n, ast.Assign) and n.targets[0].id == "_IMPLICIT_EXCLUDE")
+    t["implicit_exclude"] = [ast.literal_eval(e) for e in asg.value.elts]
+    # _required: `if pred: required_keys.update([...])` ...
+    for n in ast.walk(fns["_required"]):
+        if isinstance(n, ast.If) and isinstance(n.test, ast.Name) and n.test.id in ("pred", "off", "rwds"):
+            call = n.body[0].value
+            assert call.func.attr == "update"
+            t["req_" + n.test.id] = ast.literal_eval(call.args[0])
+    # flags `lrn_ips = learn == 'ips'` and the chains `learn_type = 'IPS' if lrn_ips else ... else None`
+    res = fns["_results"]
+    flags, chains, targets = {}, {}, {}
+    for n in ast.walk(res):
+        if isinstance(n, ast.Assign) and len(n.targets) == 1 and isinstance(n.targets[0], ast.Name):
+            name, v = n.targets[0].id, n.value
+            if isinstance(v, ast.Compare) and isinstance(v.left, ast.Name) and v.left.id in ("learn", "eval") and isinstance(v.ops[0], ast.Eq):
+                flags[name] = (v.left.id, ast.literal_eval(v.comparators[0]))
+            if name in ("learn_type", "eval_type"):
+                chain = []
+                while isinstance(v, ast.IfExp):
+                    chain.append((v.test.id, ast.literal_eval(v.body)))
+                    v = v.orelse
+                assert ast.literal_eval(v) is None
+                chains[name] = chain
+            if name == "learn_target":
+                t["learn_target"] = ast.literal_eval(v)
+            if name == "eval_target":
+                t["eval_target_own"], t["eval_target_shared"] = ast.literal_eval(v.body), ast.literal_eval(v.orelse)
+    for nm, which in (("learn_type", "learn"), ("eval_type", "eval")):
+        t[which + "_types"] = [[flags[f][1], ty] for f, ty in chains[nm] if flags[f][0] == which]
+        assert len(t[which + "_types"]) == len(chains[nm])
+    t["ope_targets"] = [ast.literal_eval(k.value) for n in ast.walk(res) if isinstance(n, ast.Call) and getattr(n.func, "id", None) == "OpeRewards"
+                        for k in n.keywords if k.arg == "target"]
+    # __init__(record: …=[…], learn: Optional[Literal[…]], eval: Optional[Literal[…]])
+    init = fns["__init__"]
+    args = {a.arg: a for a in init.args.args}
+    def literals(a):
+        return [ast.literal_eval(e) for n in ast.walk(a.annotation) if isinstance(n, ast.Subscript) and getattr(n.value, "id", None) == "Literal"
+                for e in (n.slice.elts if isinstance(n.slice, ast.Tuple) else [n.slice])]
+    t["learn_modes"], t["eval_modes"] = literals(args["learn"]), literals(args["eval"])
+    t["default_record"] = ast.literal_eval(init.args.defaults[0])
+    # OpeRewards.__init__: `if rwd_type in ['DM','DR']: PackageChecker.vowpalwabbit(...)`
+    ope = next(n for n in flt.body if isinstance(n, ast.ClassDef) and n.name == "OpeRewards")
+    oinit = next(n for n in ope.body if isinstance(n, ast.FunctionDef) and n.name == "__init__")
+    t["vw_types"] = []
+    for n in ast.walk(oinit):
+        if isinstance(n, ast.If) and isinstance(n.test, ast.Compare) and isinstance(n.test.ops[0], ast.In) and "vowpalwabbit" in ast.dump(n.body[0]):
+            t["vw_types"] = ast.literal_eval(n.test.comparators[0])
+    for k in DEFAULT_TABLES:
+        assert k in t, k
+    return t
 
 
 # ------------------------------------------------------------------ the property
@@ -1296,6 +1629,31 @@ def corpus_cases():
     add("on", "on", dflt, [p[:2] for p in sim])                   # no rewards -> rejected
     add("off", "on", dflt, sim)                                   # no logged fields -> rejected
     add("ips", "ips", dflt, [[kv for kv in p if kv[0] != "reward"] for p in log])
+    # round g (seeded C06-gm1): an earlier operation in the same process left CobaContext.learning_info non-empty
+    for pre in ([{"kind": "crash", "where": "learn", "at": 1, "info": STALE_INFOS[0]}],
+                [{"kind": "crash", "where": "learn", "at": 0, "info": STALE_INFOS[1]}],
+                [{"kind": "crash", "where": "predict", "at": 1, "info": STALE_INFOS[2]}],
+                [{"kind": "crash", "where": "score", "at": 0, "info": STALE_INFOS[3]}],
+                [{"kind": "rejection", "info": STALE_INFOS[0]}],
+                [{"kind": "rejection", "info": STALE_INFOS[2]}, {"kind": "crash", "where": "learn", "at": 2, "info": STALE_INFOS[1]}]):
+        for (learn, ev, rec, inters, batch) in (("on", "on", dflt, sim, None), ("on", "on", [], [p[:3] for p in sim], None), ("off", "ips", ["reward"], both, 2)):
+            add(learn, ev, rec, inters, batch=batch)
+            cs[-1]["pre"] = pre
+    add("on", "on", dflt, sim)
+    cs[-1]["then"] = [{"cfg": {"learn": "on", "eval": "on", "record": dflt}, "env": {"batch": None, "gen": False, "inters": sim},
+                       "pre": [{"kind": "crash", "where": "learn", "at": 1, "info": STALE_INFOS[0]}]}]
+    # phase 4: modes needing vowpalwabbit (guard), heterogeneous reserved keys
+    for learn, ev in (("dr", "dm"), ("dm", "dm"), ("dr", None), ("ips", "dr"), ("ips", "dm"), ("on", "dr"), ("off", "dm"), (None, "dr"), ("dm", "ips"), ("dr", "on")):
+        add(learn, ev, dflt, both)
+        add(learn, ev, ["reward"], both, batch=2, has_score=True)
+        add(learn, ev, dflt, sim)                                   # no logged fields -> rejected by validation first
+        add(learn, ev, dflt, logna, has_score=True)                 # no 'actions'
+    for drop in (["context"], ["actions"], ["rewards"], ["action"], ["reward"], ["context", "actions"], ["rewards", "reward"]):
+        for learn, ev in (("on", "on"), ("off", "ips"), ("ips", "on"), ("on", "ips"), (None, None)):
+            add(learn, ev, allrec, [both[0], both[1], [kv for kv in both[2] if kv[0] not in drop]])
+            add(learn, ev, dflt, [both[0], [kv for kv in both[1] if kv[0] not in drop], both[2]], has_score=True)
+    add("off", None, allrec, [logna[0], logna[1] + [["actions", {"l": [1, 2]}]], logna[2]])       # a later interaction has 'actions', the first not
+    add("on", "on", allrec, [noctx[0], noctx[1] + [["context", 5]], noctx[2]])
     return cs
 
 
@@ -1315,7 +1673,10 @@ class C06(Property):
             "learner (8 (action[,prob][,kwargs]) formats incl. probability 0 and empty kwargs, or PMF answers {'pmf':..} drawn by SafeLearner with "
             "CobaRandom(seed); with/without score; batch-aware or not; 15% also write CobaContext.learning_info). 25% of the cases are histories of "
             "2-3 evaluations with the same learner object (plain or pre-wrapped in SafeLearner) over environments differing in batching/shape; "
-            "every evaluation is judged on its own. non-trivial = at least 2 interactions and every environment passes validation; distinct by "
+            "every evaluation is judged on its own. 7% use a mode needing vowpalwabbit (learn/eval in dr, dm: guard only); 8% of un-batched "
+            "environments have ONE later interaction lacking 1-2 reserved keys of the first and/or later interactions carrying reserved keys the first "
+            "lacks ((A) only); 12% are preceded in the same process by an aborted SequentialCB evaluation whose learner wrote learning_info, or by a "
+            "RejectionCB evaluation (rows must hold nothing of it). non-trivial = at least 2 interactions and every environment passes validation; distinct by "
             "canonical JSON of the case")
     trusted_base = [
         "SafeLearner's prediction-format parsing is the identity on (action, probability, kwargs) for the 8 hinted/unambiguous formats generated "
@@ -1328,7 +1689,15 @@ class C06(Property):
         "a batch-level learner call is read as its rows in order (batch-aware recorder) or is replaced by per-row calls by SafeLearner (batch-unaware recorder)",
         "learning_info in a batched pass is modelled with Unbatch's indexing of subscriptable values (Subscript.idx = Python v[i] on the canonical "
         "list/str forms); generated only where every row has an extra field (a batch row without any Batch.List cell is never un-batched)",
-        "dr/dm reward targets are not modelled (OpeRewards('DM'/'DR') needs vowpalwabbit at construction); only the IPS target plumbing is",
+        "modes dr/dm: modelled up to the package guard (evaluateX: validation with _required for every accepted mode, then OpeRewards(type, target) in "
+        "construction order raising CobaExit when vowpalwabbit is absent); with the package installed the trained DM/DR reward regressor is not "
+        "modelled (OutcomeX.notModelled, (A) skipped)",
+        "heterogeneous reserved keys: the model's per-interaction reads are Finalize's DiscreteReward, OpeRewards('IPS') and the loop body; "
+        "Harden/Repr inside Finalize also subscript context/actions/action with a two-interaction look-ahead, so (A) compares the KeyError's key as a "
+        "member of missingOf and the learner calls as a prefix of the model's calls before the first incomplete interaction",
+        "translator (pre_build): _IMPLICIT_EXCLUDE, the key lists of _required, the learn_type/eval_type chains, the OpeRewards target names, the "
+        "Literal mode lists, the default record and OpeRewards' vowpalwabbit types are read with ast from the source under test into "
+        "Generated/C06Tables.lean; theorem source_tables_match ties them to the model",
     ]
     assumptions = ["modes dr/dm and record 'ope_loss' need vowpalwabbit (excluded by the property)",
                    "environments are homogeneous (every interaction has the keys of the first) except that 'probability' may be present in some "
@@ -1345,6 +1714,45 @@ class C06(Property):
                         "own key (fix C06-F8, logged_probability_read_per_interaction, off_policy_probability_per_interaction_example); until the fix "
                         "is committed /repo passes None / raises KeyError there (known C06-F8, C06-F8b)",
                         "batched_trace_regrouped": "history-independent learners only (exact side condition Oblivious + Hyp)"}
+
+    # ---- translator part: tables/constants of SequentialCB and OpeRewards are re-extracted from the CURRENT source on every run;
+    # Lemmas/C06.lean proves that they are the ones the model uses (theorem source_tables_match)
+    def pre_build(self):
+        from core import lean
+        path = os.path.join(lean.LEAN_DIR, "CobaVerif", "Generated", "C06Tables.lean")
+        try:
+            t = extract_tables(os.environ.get("COBA_REPO", "/repo"))
+            note = "C06 tables extracted from coba/evaluators/sequential.py and coba/environments/filters.py"
+        except Exception as e:        # noqa: source reshaped beyond what the extractor reads
+            t = dict(DEFAULT_TABLES, extracted=False)
+            note = "C06 tables could not be extracted (%s: %s); (A) still pins them" % (type(e).__name__, e)
+
+        def sl(xs):
+            return "[" + ", ".join(json.dumps(x) for x in xs) + "]"
+
+        def pl(ps):
+            return "[" + ", ".join("(%s, %s)" % (json.dumps(a), json.dumps(b)) for a, b in ps) + "]"
+        body = ("-- GENERATED by harness/props/c06.py from coba/evaluators/sequential.py and coba/environments/filters.py on every run; do not edit.\n"
+                "namespace Coba.Generated.C06\n"
+                "def implicitExclude : List String := %s\n"
+                "def requiredPred : List String := %s\ndef requiredOff : List String := %s\ndef requiredRwds : List String := %s\n"
+                "def learnTypes : List (String × String) := %s\ndef evalTypes : List (String × String) := %s\n"
+                "def opeTargets : List String := %s\n"
+                "def learnTarget : String := %s\ndef evalTargetOwn : String := %s\ndef evalTargetShared : String := %s\n"
+                "def vwTypes : List String := %s\n"
+                "def learnModes : List String := %s\ndef evalModes : List String := %s\n"
+                "def defaultRecord : List String := %s\n"
+                "def extracted : Bool := %s\nend Coba.Generated.C06\n"
+                % (sl(sorted(t["implicit_exclude"])), sl(t["req_pred"]), sl(t["req_off"]), sl(t["req_rwds"]), pl(t["learn_types"]), pl(t["eval_types"]),
+                   sl(t["ope_targets"]), json.dumps(t["learn_target"]), json.dumps(t["eval_target_own"]), json.dumps(t["eval_target_shared"]),
+                   sl(sorted(t["vw_types"])), sl(sorted(t["learn_modes"])), sl(sorted(t["eval_modes"])), sl(t["default_record"]),
+                   "true" if t.get("extracted", True) else "false"))
+        old = open(path, encoding="utf-8").read() if os.path.exists(path) else None
+        if old != body:
+            os.makedirs(os.path.dirname(path), exist_ok=True)
+            with open(path, "w", encoding="utf-8") as f:
+                f.write(body)
+        return [note]
 
     def corpus(self):
         return corpus_cases()
@@ -1370,7 +1778,18 @@ class C06(Property):
         for k, impl in enumerate(obs):
             ecase = episode_case(case, k)
             cfg, env, L = ecase["cfg"], ecase["env"], ecase["learner"]
-            efails, etags = monitor(ecase, impl)
+            if episode_pre(case, k):
+                ecase = dict(ecase, pre=episode_pre(case, k))
+            xmode, het = is_xcfg(cfg), hetero_reserved(env)
+            if xmode:
+                efails, etags = monitor_x(ecase, impl)
+            elif het:
+                efails, etags = [], ["hetero-reserved-keys"]       # outside the quantifier: (A) only
+            else:
+                efails, etags = monitor(ecase, impl)
+            efails += monitor_foreign(ecase, impl)
+            for op, note in zip(episode_pre(case, k), impl.get("pre", [])):
+                etags.append("pre:%s:%s:%s" % (op["kind"], op.get("where"), note))
             etags += ["learn:%s" % cfg["learn"], "eval:%s" % cfg["eval"], "batch:%s" % (env.get("batch") or 0), "n:%d" % min(len(env["inters"]), 5),
                       "fmt:" + L["fmt"], "score:%s" % L["has_score"], "bm:" + L.get("batch_mode", "aware")]
             etags += ["rec:" + r for r in cfg["record"]]
@@ -1385,9 +1804,34 @@ class C06(Property):
             if impl["exc"]:
                 etags.append("raised:" + impl["exc"])
             model = None
-            if driver is not None:
+            if driver is not None and xmode:
+                req = model_request(dict(ecase, cfg=dict(cfg, learn=None, eval=None)), impl["s0"])
+                req["xcfg"] = {"learn": cfg["learn"], "eval": cfg["eval"], "record": cfg["record"]}
+                req["vw"] = vw_installed()
+                ansx = driver.ask(req)
+                efails += compare_AX(ecase, impl, ansx)
+                etags.append("modelX:" + ansx["modelX"]["kind"] + ":" + str(ansx["modelX"].get("err")) + ":" + str(ansx["modelX"].get("type")))
+            elif driver is not None and het:
                 ans = driver.ask(model_request(ecase, impl["s0"]))
                 model = ans["model"]
+                hf = compare_hetero(ecase, impl, ans)
+                if hf is None:
+                    etags.append("hetero:evaluates")
+                    efails += compare_A(ecase, impl, ans) + compare_record_keys(ecase, impl, ans)
+                else:
+                    etags.append("hetero:keyerror:" + "+".join(ans["firstBad"]["keys"]))
+                    efails += hf
+            elif driver is not None:
+                ans = driver.ask(model_request(ecase, impl["s0"]))
+                model = ans["model"]
+                if (case.get("_xcheck") or len(json.dumps(ecase["cfg"])) % 5 == 0) and not case["learner"].get("info") and L["fmt"] not in ("pmf", "pmfK"):
+                    # theorem evaluateX_conservative: on the package-free modes the all-modes model is the model
+                    req = model_request(ecase, impl["s0"])
+                    req["xcfg"] = req["cfg"]
+                    ansx = driver.ask(req)
+                    if ansx["modelX"] != model or ansx["requiredX"] != ans["required"]:
+                        efails.append(F("C", "evaluateX %s differs from evaluate %s on a package-free mode" % (json.dumps(ansx["modelX"])[:150], json.dumps(model)[:150]), "C:conservative"))
+                    etags.append("xcheck")
                 gap_only = False
                 if env["inters"]:
                     miss = [x for x in documented_required(cfg, L["has_score"]) if x not in idict(env["inters"][0])]
@@ -1396,6 +1840,8 @@ class C06(Property):
                     etags.append("A-skipped:documented-but-unenforced-requirement")
                 elif not any(f["kind"] == "B" and f["sig"] != "not-rejected-upfront:missing=probability" for f in efails):
                     efails += compare_A(ecase, impl, ans)
+                    if not L.get("info") and not any(f["kind"] == "B" for f in efails):
+                        efails += compare_record_keys(ecase, impl, ans)
                 obl = (len(env["inters"]), env["batch"]) if (env.get("batch") and len(L["script"]) == 1 and L["fmt"] not in ("pmf", "pmfK")) else None
                 efails += compare_C(ans, bool(env.get("batch")) and bool(env["inters"]), obl)
                 if ans.get("hyp"):
@@ -1461,6 +1907,9 @@ class C06(Property):
                         yield dict(case, then=then[:k] + [dict(t, env=dict(t["env"], inters=ti[:q] + ti[q + 1:]))] + then[k + 1:])
                 for r in t["cfg"]["record"]:
                     yield dict(case, then=then[:k] + [dict(t, cfg=dict(t["cfg"], record=[x for x in t["cfg"]["record"] if x != r]))] + then[k + 1:])
+        if case.get("pre") and len(case["pre"]) > 1:
+            for q in range(len(case["pre"])):
+                yield dict(case, pre=case["pre"][:q] + case["pre"][q + 1:])
         env, cfg, L = case["env"], case["cfg"], case["learner"]
         inters = env["inters"]
         for k in range(len(inters)):
@@ -1493,14 +1942,15 @@ class C06(Property):
 
     def snippet(self, case):
         return ("import sys, json; sys.path[:0] = ['/repo', '/verif/harness']\n"
-                "from props.c06 import run_history, episode_case, monitor\n"
+                "from props.c06 import run_history, episode_case, monitor, monitor_foreign\n"
                 "case = json.loads(%r)\n"
                 "# builds the environment(s) + ONE recording learner (wrapped in SafeLearner when learner['prewrap']) and calls\n"
-                "# SafeEvaluator(SequentialCB(**cfg)).evaluate(env, learner) once per episode (case, then case['then'][...])\n"
+                "# SafeEvaluator(SequentialCB(**cfg)).evaluate(env, learner) once per episode (case, then case['then'][...]); case['pre'] lists earlier\n"
+                "# operations run in the same process first (an aborted evaluation whose learner wrote learning_info / a RejectionCB evaluation)\n"
                 "for k, impl in enumerate(run_history(case)):\n"
                 "    print('--- evaluation', k + 1, 'exception:', impl['exc'], impl.get('msg'))\n    print('learner saw:')\n"
                 "    for c in impl['calls']: print('  ', {k_: v for k_, v in c.items() if k_ in ('m','ctx','acts','a','r','p','kw')})\n"
-                "    print('rows:', impl['rows'])\n    print('property monitor:', [f['what'] for f in monitor(episode_case(case, k), impl)[0]])\n" % json.dumps(case))
+                "    print('rows:', impl['rows'])\n    print('property monitor:', [f['what'] for f in monitor(episode_case(case, k), impl)[0] + monitor_foreign(dict(episode_case(case, k), pre=case.get('pre')), impl)])\n" % json.dumps(case))
 
 
 PROPERTY = C06()
